@@ -2,6 +2,92 @@
 #include "common.hpp"
 #include "libphysica/Integration.hpp"
 using namespace libphysica;
+// ---- nested integrations and sessions (grammar: checks/C12.py)
+//   lev  := kind n a b        kind: I = (func,a,b,n), F = (func,rule) on a rule computed here, U = (values,rule) with the values
+//                                    collected here, D = (func,a,b) with the default order (n is ignored)
+//   core := P fexpr | G k n a b fexpr     the innermost integrand in v0..v(d-1); G multiplies by the value overload called with k unit
+//                                    values on the rule (n,a,b): a call of the library made by the integrand (rejected when k != n)
+struct Abandon   // thrown by the innermost integrand to abandon everything that is running
+{
+};
+struct Level
+{
+	char kind;
+	unsigned int n;
+	double a, b;
+};
+struct Core
+{
+	char kind = 'P';
+	std::shared_ptr<vh::FExpr> e;
+	long kvals		= 0;
+	unsigned int gn = 0;
+	double ga = 0, gb = 0;
+};
+static long g_count = 0, g_abandon_at = 0;
+static std::vector<Level> read_levels(vh::Reader& r, long d)
+{
+	std::vector<Level> L;
+	for(long j = 0; j < d; j++)
+	{
+		Level l;
+		l.kind = r.word()[0];
+		l.n	   = (unsigned int) r.integer();
+		l.a	   = r.num();
+		l.b	   = r.num();
+		L.push_back(l);
+	}
+	return L;
+}
+static Core read_core(vh::Reader& r)
+{
+	Core c;
+	c.kind = r.word()[0];
+	if(c.kind == 'G')
+	{
+		c.kvals = r.integer();
+		c.gn	= (unsigned int) r.integer();
+		c.ga	= r.num();
+		c.gb	= r.num();
+	}
+	c.e = vh::parse_fexpr(r);
+	return c;
+}
+static double eval_core(const Core& c, const std::vector<double>& xs)
+{
+	g_count++;
+	if(g_abandon_at > 0 && g_count >= g_abandon_at)
+		throw Abandon();
+	double v[16] = {0};
+	for(size_t k = 0; k < xs.size() && k < 16; k++)
+		v[k] = xs[k];
+	double e = vh::eval_fexpr(*c.e, v);
+	if(c.kind == 'G')
+		e = e * Integrate_Gauss_Legendre(std::vector<double>((size_t) c.kvals, 1.0), Compute_Gauss_Legendre_Roots_and_Weights(c.gn, c.ga, c.gb));
+	return e;
+}
+static double nest_level(const std::vector<Level>& L, size_t j, const Core& c, std::vector<double> xs)
+{
+	if(j == L.size())
+		return eval_core(c, xs);
+	std::function<double(double)> f = [&L, j, &c, xs](double x) {
+		std::vector<double> ys = xs;
+		ys.push_back(x);
+		return nest_level(L, j + 1, c, ys);
+	};
+	const Level& l = L[j];
+	if(l.kind == 'I')
+		return Integrate_Gauss_Legendre(f, l.a, l.b, l.n);
+	if(l.kind == 'D')
+		return Integrate_Gauss_Legendre(f, l.a, l.b);
+	auto rw = Compute_Gauss_Legendre_Roots_and_Weights(l.n, l.a, l.b);
+	if(l.kind == 'F')
+		return Integrate_Gauss_Legendre(f, rw);
+	std::vector<double> vals;
+	for(auto& row : rw)
+		vals.push_back(f(row[0]));
+	return Integrate_Gauss_Legendre(vals, rw);
+}
 static void put_rule(vh::Out& o, const std::vector<std::vector<double>>& rw)
 {
 	o.i((long) rw.size());
@@ -72,6 +158,67 @@ static void handler(vh::Reader& r, vh::Out& o)
 		auto rows = r.table();
 		auto f	  = vh::fun1(vh::parse_fexpr(r));
 		o.f(Integrate_Gauss_Legendre(f, rows));
+	}
+	else if(op == "nest")
+	{
+		// the same nested integration with the outermost level asked through each of the three overloads
+		long d	= r.integer();
+		auto L	= read_levels(r, d);
+		Core c	= read_core(r);
+		g_count = g_abandon_at = 0;
+		for(char k : {'I', 'F', 'U'})
+		{
+			L[0].kind = k;
+			o.f(nest_level(L, 0, c, {}));
+		}
+	}
+	else if(op == "sess")
+	{
+		// several requests in one process, in this order
+		long k = r.integer();
+		for(long q = 0; q < k; q++)
+		{
+			std::string c = r.word();
+			if(c == "R")
+			{
+				long n	 = r.integer();
+				double a = r.num(), b = r.num();
+				put_rule(o, Compute_Gauss_Legendre_Roots_and_Weights((unsigned int) n, a, b));
+			}
+			else if(c == "V")
+			{
+				long n	 = r.integer();
+				double a = r.num(), b = r.num();
+				std::vector<double> vals = r.list();
+				auto rw = Compute_Gauss_Legendre_Roots_and_Weights((unsigned int) n, a, b);
+				o.f(Integrate_Gauss_Legendre(vals, rw));
+			}
+			else if(c == "N" || c == "X")
+			{
+				long at = c == "X" ? r.integer() : 0;
+				long d	= r.integer();
+				auto L	= read_levels(r, d);
+				Core co = read_core(r);
+				g_count		 = 0;
+				g_abandon_at = at;
+				try
+				{
+					double v = nest_level(L, 0, co, {});
+					o.f(v);
+				}
+				catch(const Abandon&)
+				{
+					o.w("A");
+					o.i(g_count);
+				}
+				g_abandon_at = 0;
+			}
+			else
+			{
+				o.w("HARNESSERR unknown_request");
+				return;
+			}
+		}
 	}
 	else
 		o.w("HARNESSERR unknown_op");
